@@ -18,8 +18,14 @@ empty `TypedDict`) may be listed before and after the parametrised base (`Level.
 both loops over `__orig_bases__` skip them (`C17_plain_bases_skipped`).  The fields such a mixin contributes are
 collected by attrs / dataclasses after the parametrised base's and before the class's own: the harness presents them
 as leading own fields of the level.
-Not modelled: a class inheriting `__orig_bases__` from an unparametrised generic base (`class C(B)` with `B` generic),
-more than one parametrised base.  Core Lean only.
+A PLAIN subclass of a class without parameters (`class Leaf(IntNode)` below `class IntNode(Node[int])`) has no
+`__orig_bases__` and no `__parameters__` of its own: attribute lookup finds the parent's, so for every function of this
+model it is the parent class with more fields — the harness presents such a level merged into its parent (not for
+TypedDicts, which always get their own `__orig_bases__`: recorded finding F63).
+Not modelled: a class inheriting `__orig_bases__` from an unparametrised generic base WITH parameters (`class C(B)`
+with `B` generic), an unsubscripted class among the bases of a class statement that has `__orig_bases__` of its own
+(`class Tagged(Leaf, Generic[W])`: `make_dict_structure_fn` applies `generate_mapping` to the bare `Leaf`; covered by the
+implementation-side oracle only), more than one parametrised base.  Core Lean only.
 -/
 namespace CattrsModel.Generics
 
